@@ -205,7 +205,8 @@ PROPS["C04"] = {
     "level_note": _ARCH_NOTE,
 }
 PROPS["C11"] = {
-    "theorems": ["C11_decode_encode_dict", "C11_compress_conforming", "C11_header_layout", "C11_archive_is_header_then_chunks"],
+    "theorems": ["C11_decode_encode_dict", "C11_compress_conforming", "C11_header_layout", "C11_archive_is_header_then_chunks",
+                 "C11_reader_reports_writer"],
     "suites": ["protoenc", "compress", "clirt"], "needs_cli": True,
     "rule": "cases: random dictionaries through prost's encoder vs the model encoder (byte exact); library and CLI writers on "
             "generated sources/configs vs the model's archive bytes (byte exact, hash and compressed payload tables supplied by "
@@ -232,6 +233,26 @@ PROPS["C17"] = {
     "level_text": "Theorems (Coq): the decoder model ignores unknown fields anywhere between top-level fields and decodes every "
                   "canonical encoding; acceptance/reporting and the clone of any archive whose index describes a source are covered "
                   "by C15/C04/C02 theorems (archive-level clone theorem when present in Properties/C17.v).",
+    "level_note": _ARCH_NOTE,
+}
+
+PROPS["C01"] = {
+    "theorems": ["C01_roundtrip", "C01_archive_records_source", "C01_input_delivery_irrelevant"],
+    "suites": ["clirt", "compress", "conform"], "needs_cli": True,
+    "rule": "cases: generated sources (empty, 1 byte, shorter than window/min chunk, around min/max, duplicate heavy, > 1 MiB) x "
+            "valid configurations (three chunkers, hash length 4..64, none/brotli levels 1..11, buffered-chunks 1..64) through "
+            "`bita compress` then `bita clone` locally and over http and `bita info`; library writer + reader; every archive also "
+            "compared byte for byte with the model's archive. non-trivial = archive > 300 bytes",
+    "assumes": ["hash: any 64-byte function not colliding (after truncation) on the chunks of the source; codec round trip "
+                "(decompress (compress x) = x); fewer than 2^32 chunks",
+                "thread schedules: see C12 (ordered stages, flushed temp file) -- the runtime is assumed as modelled",
+                "zstd/lzma are not built in this sandbox's default feature set: only none and brotli are exercised"],
+    "trusted_base": [],
+    "level_text": "Theorem C01_roundtrip (Coq): for every source and valid options the archive produced by the writer model is accepted by "
+                  "the reader model and cloning it yields exactly the source; the header records the true size, checksum and settings. "
+                  "Composition of the proved codec round trip, writer conformance, reader acceptance and clone theorems. Both "
+                  "writers are tied byte for byte to the model and real compress->clone round trips run on every check. "
+                  "Partial: thread and async-file schedules are covered by the C12 model theorems under assumed runtime semantics.",
     "level_note": _ARCH_NOTE,
 }
 
